@@ -297,6 +297,10 @@ func TypeDefinitionArrayTypeArgument(t dsl.TypeDefinition) string {
 		return "np.void"
 	case *dsl.GenericTypeParameter:
 		return NumpyTypeParameterSyntax(t)
+	case *dsl.NamedType:
+		// the element type of an array of an alias is that of the aliased type
+		// (for `Vec3: int*3` the dtype syntax would be "np.int32, (3,)")
+		return TypeArrayTypeArgument(t.Type)
 	default:
 		return TypeDefinitionDTypeSyntax(t)
 	}
